@@ -302,11 +302,22 @@ def install_dict(I):
         m = _m(self)
         for a in args:
             if isinstance(a, (list, tuple)):
-                pairs = [tuple(x) for x in a]
+                pairs = [(True,) + tuple(x) for x in a]
             else:
-                pairs = dict_items(I, a)
-            for k, v in pairs:
-                dict_setitem(I, m, k, v)
+                src = _m(a)
+                if not isinstance(src, sx.SDict):
+                    raise Unsupported("dict.update from this object")
+                # entries whose presence is symbolic are written under that presence as a guard
+                pairs = [(e[0], k, e[1]) for k, e in src.d.items() if e[0] is not False]
+            for g, k, v in pairs:
+                if g is True:
+                    dict_setitem(I, m, k, v)
+                else:
+                    I.guards.append(g)
+                    try:
+                        dict_setitem(I, m, k, v)
+                    finally:
+                        I.guards.pop()
         for k, v in kwargs.items():
             dict_setitem(I, m, k, v)
     L["dict.update"] = d_update
@@ -566,7 +577,9 @@ def install_builtins(I):
         it = iterate(I, x)
         if isinstance(it, tuple) and len(it) == 2 and it[0] == "__sseq__":
             return SSeq(it[1].term)
-        return _plain(it)
+        # keys of a dict with symbolic presence stay guarded: a for-loop over the list runs
+        # each of them under its presence condition
+        return list(it)
     bi["list"] = B("list", b_list)
     bi["tuple"] = B("tuple", lambda I, x=(): tuple(_plain(iterate(I, x))))
     def b_set(I, x=()):
@@ -932,6 +945,11 @@ SUM = z3.Function("sum", z3.ArraySort(z3.IntSort(), z3.RealSort()), z3.IntSort()
 def _reduce_sum(I, arr):
     if isinstance(arr, (list, tuple)):
         return I.builtins["sum"].fn(I, list(arr))
+    if isinstance(arr, SArray) and isinstance(arr.length, int):
+        acc = 0
+        for i in range(arr.length):
+            acc = I.binop("Add", acc, arr.at(z3.IntVal(i)))
+        return acc
     n, fn, maskfn = _arr_parts(arr)
     k = z3.Int(fresh("si"))
     if maskfn is not None:
@@ -1070,6 +1088,32 @@ def install_numpy(I):
             return False     # A1: infinities are outside the modelled reals
         raise Unsupported("isinf")
     L["numpy.isinf"] = ew1(np_isinf)
+
+    def array_equal(I, a, b, **k):
+        if isinstance(a, SArray) and isinstance(b, SArray):
+            if a is b:
+                return True
+            i = z3.Int(fresh("ae"))
+            n = a.len_term()
+            sa, sb = a.snap(), b.snap()
+            return SBool(z3.And(n == b.len_term(),
+                                z3.ForAll([i], z3.Implies(z3.And(i >= 0, i < n),
+                                                          V.rterm(sa(i)) == V.rterm(sb(i))))))
+        raise Unsupported("array_equal of non-arrays")
+    L["numpy.array_equal"] = array_equal
+
+    def atleast_2d(I, a):
+        # rows of a 2-D array: a list of 1-D arrays (a single 1-D array becomes one row)
+        if isinstance(a, SArray):
+            return [a]
+        if isinstance(a, (list, tuple)):
+            if all(isinstance(x, SArray) for x in a):
+                return list(a)
+            if all(V.is_num(x) for x in a):
+                return [L["numpy.array"](I, list(a))]
+        raise Unsupported("atleast_2d of this value")
+    L["numpy.atleast_2d"] = atleast_2d
+    L["ndarray.flatten"] = lambda I, self: SArray(self.length, self.snap(), self.kind)
 
     def np_maximum(I, a, b):
         f = lambda x, y: A.ite_val(V.bterm(A.scalar_compare("GtE", x, y)) if not isinstance(A.scalar_compare("GtE", x, y), bool) else z3.BoolVal(A.scalar_compare("GtE", x, y)), x, y)
